@@ -1036,6 +1036,11 @@ bool ConnRef::generatePath(void)
     freeRoutes();
     PolyLine& output_route = m_route;
     output_route.ps = clippedPath;
+
+    // Record the length of the new route.  It is used to decide whether
+    // this connector could take a shorter path once an obstacle is moved
+    // away or removed.
+    calcRouteDist();
  
 #ifdef PATHDEBUG
     db_printf("Output route:\n");
